@@ -324,4 +324,79 @@ theorem inlineOne_map_order (b : Bounding α) {sc sc' : KMap (Scale α)} (h : sc
     exact ⟨rfl, rfl, hac.1, hac.2⟩
 
 end Inline
+/-! ### `idealReferenceAlternativeEvaluator`: `prepareCriteriaWithCoefficients` (range over the first anchoring
+    alternative's value map) and `extractCriteriaValues` (range over the `best` map) -/
+
+section FindBest
+variable [Num α]
+
+/-- the loop body of `findBestCriteriaValues` for one alternative and one criterion -/
+def fbStep (pred : Crit α → α × α → α × α → Bool) (a : Alt α × α) (best : KMap (α × α)) (c : Crit α) :
+    R (KMap (α × α)) := do
+  let v ← a.1.raw c
+  match best.get? c.id with
+  | none => throw s!"criterion-not-found:{c.id}"
+  | some old => pure (if pred c old (v, a.2) then best.set c.id (v, a.2) else best)
+
+theorem findBestStep_eq (pred : Crit α → α × α → α × α → Bool) (crits : List (Crit α))
+    (best : KMap (α × α)) (a : Alt α × α) : findBestStep pred crits best a = crits.foldlM (fbStep pred a) best := rfl
+
+theorem fbStep_respects (pred : Crit α → α × α → α × α → Bool) (a : Alt α × α) (b₁ b₂ : KMap (α × α)) (c : Crit α)
+    (h : KMap.LookupEq b₁ b₂) : R.Agree KMap.LookupEq (fbStep pred a b₁ c) (fbStep pred a b₂ c) := by
+  unfold fbStep
+  cases a.1.raw c with
+  | error e => trivial
+  | ok v =>
+    show R.Agree KMap.LookupEq (match b₁.get? c.id with
+        | none => throw s!"criterion-not-found:{c.id}"
+        | some old => pure (if pred c old (v, a.2) then b₁.set c.id (v, a.2) else b₁))
+      (match b₂.get? c.id with
+        | none => throw s!"criterion-not-found:{c.id}"
+        | some old => pure (if pred c old (v, a.2) then b₂.set c.id (v, a.2) else b₂))
+    rw [h c.id]
+    cases b₂.get? c.id with
+    | none => trivial
+    | some old =>
+      show KMap.LookupEq _ _
+      split
+      · exact set_respects h _ _
+      · exact h
+
+theorem findBestStep_respects (pred : Crit α → α × α → α × α → Bool) (crits : List (Crit α))
+    (b₁ b₂ : KMap (α × α)) (a : Alt α × α) (h : KMap.LookupEq b₁ b₂) :
+    R.Agree KMap.LookupEq (findBestStep pred crits b₁ a) (findBestStep pred crits b₂ a) := by
+  rw [findBestStep_eq, findBestStep_eq]
+  exact foldlM_respects KMap.LookupEq (fbStep pred a) (fbStep_respects pred a) crits b₁ b₂ h
+
+omit [Num α] in
+theorem keys_map_val {β γ : Type} (g : β → γ) (m : KMap β) :
+    ((m.map fun p => (p.1, g p.2)).map Prod.fst) = m.map Prod.fst := by
+  rw [List.map_map]; rfl
+
+/-- reference point up to the listing of its value map -/
+def AltEq (r r' : Alt α) : Prop := r.id = r'.id ∧ KMap.LookupEq r.vals r'.vals
+
+/-- **`ideal` / `nadir` reference alternative**: the reference point has the same values (as lookups), and the
+    verdict is the same, for every listing of the FIRST anchoring alternative's value map — the map
+    `prepareCriteriaWithCoefficients` ranges over; `extractCriteriaValues` ranges over the resulting `best` map and
+    only copies it key by key -/
+theorem findBest_map_order (pred : Crit α → α × α → α × α → Bool) (name : String) (a0 a0' : Alt α) (k0 : α)
+    (rest : List (Alt α × α)) (crits : List (Crit α)) (h : a0.vals.Perm a0'.vals)
+    (hk : (a0.vals.map Prod.fst).Nodup) :
+    R.Agree AltEq (findBest pred name ((a0, k0) :: rest) crits) (findBest pred name ((a0', k0) :: rest) crits) := by
+  unfold findBest
+  have h0 : KMap.LookupEq (a0.vals.map fun p => (p.1, (p.2, k0))) (a0'.vals.map fun p => (p.1, (p.2, k0))) :=
+    KMap.LookupEq.of_perm (h.map _) (by rw [keys_map_val (fun v => (v, k0))]; exact hk)
+  refine R.Agree.bind (foldlM_respects KMap.LookupEq (findBestStep pred crits)
+    (fun s₁ s₂ x hs => findBestStep_respects pred crits s₁ s₂ x hs) rest _ _ h0) (fun b b' hb => ?_)
+  refine ⟨rfl, ?_⟩
+  intro k
+  show List.lookup k (b.map fun p => (p.1, p.2.1)) = List.lookup k (b'.map fun p => (p.1, p.2.1))
+  rw [lookup_map_val (fun v : α × α => v.1), lookup_map_val (fun v : α × α => v.1)]
+  have := hb k
+  unfold KMap.get? at this
+  rw [this]
+
+end FindBest
+
 end Rdm.MapOrderAnch
